@@ -77,15 +77,15 @@ def directed(rng: random.Random, tier: str):
             hs.round([(4, hs.publish(100, b"y"))], [1, 4], 2)
             out.append(hs)
     # control frames declaring FEWER payload bytes than their definition: the manager decodes them from whatever
-    # the shared receive buffer still holds.  That decoding is not modelled (DESIGN 10.1), so these histories run
-    # against the implementation only: whatever it decodes, it must not raise.
+    # the shared receive buffer still holds.  Which bytes those are is observed in the implementation run; the
+    # model is given the control message so decoded (History.short_control / finalize), so these histories are
+    # in the correspondence too; whatever is decoded, the manager must not raise (C03 oracle).
     ctl = [("CONNECT", 4), ("CONNECT_V2", 44), ("SUBSCRIBE", 4), ("UNSUBSCRIBE", 4), ("PAUSE_SUBSCRIPTION", 4),
            ("RESUME_SUBSCRIPTION", 4), ("CLIENT_SET_NAME", 32), ("MODULE_READY", 4)]
     for name, size in ctl:
         for short in sorted({0, 1, size - 1}):
             for first in (True, False):
                 hs = C.History(loglevel=rng.choice([60, 10]), tag="short-control")
-                hs.impl_only = True
                 hs.round([], [], 0, accept=True)
                 hs.round([], [], 0, accept=True)
                 hs.round([(1, hs.connect_v2(mod_id=10, name=b"monitor"))], [1, 2], 0)
@@ -93,7 +93,7 @@ def directed(rng: random.Random, tier: str):
                 if not first:
                     hs.round([(2, hs.connect_v1(src_mod=11))], [1, 2], 0)
                     hs.round([(2, hs.publish(100, bytes(range(1, 65))))], [1, 2], 0)   # leaves bytes in the buffer
-                hs.round([(2, hs.frame(C.MT[name], bytes([7] * short), "InNone"))], [1, 2], 1)
+                hs.round([(2, hs.short_control(name, bytes([7] * short)))], [1, 2], 1)
                 hs.round([(1, hs.publish(101, b"after"))], [1, 2], 2)
                 hs.round([], [], 30)
                 out.append(hs)
